@@ -204,6 +204,8 @@ def run(tier, replay=None):
     families = sorted({n for n, _ in pairs})
     corpus, sv, vectors, stats = V.build(tier, k=16 if tier == 'quick' else 64, envs=LOGIN_ENVS)
     vectors = SCH.uniq(vectors)
+    from monitors.c04 import declared_tables
+    tables = declared_tables(corpus)
     # the reference model's view of which version has which message must match the API surface
     model_pairs = {(v['object'], v['version']) for v in vectors if v['object'] in families}
     for p in sorted(set(pairs) - model_pairs):
@@ -227,6 +229,8 @@ def run(tier, replay=None):
             cases += [('eof', f'eof@{c}', frame[:c]) for c in cuts]
             cases += [('domain', s, f) for s, f in faults.domain_faults(v, rng)]
             cases += [('count', s, f) for s, f in faults.count_faults(v)]
+            # undeclared enum values next to the declared range: the version views of an enum differ exactly there
+            cases += [('enum', s, f) for s, f, _, _, _ in faults.enum_faults(v, tables[f"{v['family']}:{v['version']}"])]
         for klass, suffix, f in cases:
             rs, ws = schedules(len(f), rng, tier, SCH.marks_of(v)) if klass == 'canonical' else (['w', f'1x{max(1, len(f))}'], ['w'])
             rid = v['id'] + ('' if suffix is None else '!' + suffix)
